@@ -132,6 +132,8 @@ pub struct Opts {
     pub fallback_to_usage: bool,
     /// wrap the root into `batteries::cargo_helper(cmd, ..)`
     pub cargo: Option<S>,
+    /// `OptionParser::max_width`
+    pub max_width: Option<usize>,
 }
 
 impl Opts {
@@ -148,6 +150,7 @@ impl Opts {
             version_names: None,
             fallback_to_usage: false,
             cargo: None,
+            max_width: None,
         }
     }
 }
@@ -621,6 +624,9 @@ pub fn build_opts(o: &Opts) -> OptionParser<Val> {
     }
     if o.fallback_to_usage {
         p = p.fallback_to_usage();
+    }
+    if let Some(w) = o.max_width {
+        p = p.max_width(w);
     }
     p
 }
@@ -1155,6 +1161,9 @@ impl Opts {
         if let Some(c) = self.cargo {
             kv.push(("cargo_helper", js(c)));
         }
+        if let Some(w) = self.max_width {
+            kv.push(("max_width", J::Int(w as i64)));
+        }
         J::obj(kv)
     }
     pub fn from_j(j: &J) -> Result<Opts, String> {
@@ -1170,6 +1179,10 @@ impl Opts {
             version_names: j.get("version_names").map(Named::from_j).transpose()?,
             fallback_to_usage: b_from(j.get("fallback_to_usage")),
             cargo: os_from(j.get("cargo_helper"))?,
+            max_width: match j.get("max_width") {
+                Some(J::Int(n)) => Some(*n as usize),
+                _ => None,
+            },
         })
     }
 }
